@@ -538,6 +538,49 @@ fn every_request_gets_exactly_one_reply_in_order() {
     report(name, "C06", &format!("all sequences of {} requests over {} request kinds (QoS1/QoS2 publish, release, subscribe with 1 and 3 filters, unsubscribe of subscribed / never-subscribed / two filters, ping, QoS0), sent as one batch, one by one, and as one batch with MQTT 5 user properties on every packet that can carry them", depth, n), cases, fail);
 }
 
+/// C06: requests that arrive while the connection is paused because its OWN outbound window is full are answered all
+/// the same (the replies must not wait for the client to acknowledge unrelated publishes)
+// @native props=C06 tier=quick fn=Router::handle_device_payload+Tracker::try_ready(FreshData)+ack_device_data
+#[test]
+fn requests_are_answered_while_the_outbound_window_is_full() {
+    let name = "rumqttd::Router::handle_device_payload#replies_do_not_wait_for_the_window";
+    let mut cases = 0u64;
+    let mut fail: Option<String> = None;
+    'outer: for unacked in [100usize, 3] {
+        for batched in [false, true] {
+            for set in 0..REQS.len() {
+                cases += 1;
+                let reqs: Vec<Req> = if batched { vec![REQS[set], Req::Ping, REQS[(set + 3) % REQS.len()]] } else { vec![REQS[set]] };
+                let desc = format!("client a has {} unacknowledged QoS 1 forwards (window of 100), then sends {:?} as one batch", unacked, reqs);
+                let mut r = new_router();
+                let a = connect(&mut r, "a", true).unwrap();
+                let p = connect(&mut r, "p", true).unwrap();
+                send(&mut r, &a, vec![subscribe(1, &[("w/#", 1), ("s/a", 0), ("s/+", 0)])]);
+                let _ = drain(&mut r, &a);
+                let pubs: Vec<Packet> = (0..unacked + 5).map(|i| publish("w/x", 0, 0, &format!("{}", i), false)).collect();
+                for chunk in pubs.chunks(40) {
+                    send(&mut r, &p, chunk.to_vec());
+                }
+                let first = drain(&mut r, &a); // read, do not acknowledge
+                let forwarded = first.iter().filter(|n| matches!(n, RNotification::Forward(_))).count();
+                if forwarded < unacked.min(100) {
+                    fail = Some(format!("input=[{}] detail=[only {} forwards reached the client]", desc, forwarded));
+                    break 'outer;
+                }
+                send(&mut r, &a, reqs.iter().map(to_packet).collect());
+                let got: Vec<String> = shown(&drain(&mut r, &a)).into_iter().filter(|s| !s.starts_with("PUBLISH(")).collect();
+                let (exp, violated) = expected_replies(&reqs);
+                let ok = if violated { got.len() <= exp.len() && got[..] == exp[..got.len()] } else { got == exp };
+                if !ok {
+                    fail = Some(format!("input=[{}] detail=[replies {:?}, expected {:?}; the broker is idle]", desc, got, exp));
+                    break 'outer;
+                }
+            }
+        }
+    }
+    report(name, "C06", "window full (100 unacknowledged) or nearly empty (3) x every request kind alone and in a batch of three", cases, fail);
+}
+
 /// C06: a QoS 2 publish reaches subscribers only once released, and once per release
 // @native props=C06 tier=quick fn=Router::handle_device_payload(QoS2)
 #[test]
